@@ -142,6 +142,7 @@ pub fn evaluate(prog: &Arc<Program>, prop: &str, cross: bool) -> Evaluated {
                 }
             }
             RAct::WrAdd { wr: 1, .. } if c.run == 0 => cover.count("api/world_reactor_starting_triggers", 1),
+            RAct::AutoDespawnEnt { .. } => cover.count("api/entity_released_for_auto_despawn", 1),
             RAct::RunEnt { .. } => cover.count("api/run_command_to_plain_entity", 1),
             RAct::SendSeEnt { .. } => cover.count("api/system_event_to_plain_entity", 1),
             _ => {}
